@@ -58,7 +58,7 @@ func isStoreVal(target, val string) func(Site) bool {
 }
 
 func propC04(c *Ctx) {
-	c.Explanation = "Decides structural necessary conditions of window/MSS discipline for all inputs: (N1) the window field written by sendTCP is a lossless conversion: the receive window is clamped to 0xffff before uint16() (interval analysis); (N2) the advertised right edge rcvAcc moves only forward: its only store outside the constructor is guarded by rcvAcc.LessThan(new) and stores exactly that new value, and the advertisement is (rcvAcc-rcvNxt) >> rcvWndScale; (N3) maxPayloadSize only shrinks, is at least 1, and is computed as MTU - TCP header - the largest option block the stack can send (timestamps and maximum SACK blocks) - so a full segment with options never exceeds the MTU; (N4) the peer's window is scaled before the sender sees it: in handleSegments `s.window <<= sndWndScale` precedes both handleRcvdSegment calls on the ACK branch, and the sender copies seg.window into sndWnd; (N5) sendData sends data only when the segment starts before sndUna+sndWnd, and splits exactly at min(room in the window, maxPayloadSize) (site table shared with C01); (N6) acceptable() computes RFC 793's acceptability table over sequence-space primitives; in-window data is delivered (C01/R3); zero-window detection compares (rcvBufSize-rcvBufUsed)>>scale with 0. NOT decided: the inequality 'bytes in flight <= offered window' over histories of ACKs (needs the sizes of heap-allocated views across calls); the arithmetic of the primitives is C14."
+	c.Explanation = "Decides structural necessary conditions of window/MSS discipline for all inputs: (N1) the window field written by sendTCP is a lossless conversion: the receive window is clamped to 0xffff before uint16() (interval analysis); (N2) the advertised right edge rcvAcc moves only forward: its only store outside the constructor is guarded by rcvAcc.LessThan(new) and stores exactly that new value, and the advertisement is (rcvAcc-rcvNxt) >> rcvWndScale; (N3) maxPayloadSize only shrinks, is at least 1, and is computed as MTU - TCP header - the largest option block the stack can send (timestamps and maximum SACK blocks) - so a full segment with options never exceeds the MTU; (N4) the peer's window is scaled before the sender sees it: in handleSegments `s.window <<= sndWndScale` precedes both handleRcvdSegment calls on the ACK branch, and the sender copies seg.window into sndWnd; (N5) sendData sends data only when the segment starts before sndUna+sndWnd, and splits exactly at min(room in the window, maxPayloadSize) (site table shared with C01); (N6) acceptable() computes RFC 793's acceptability table over sequence-space primitives; in-window data is delivered (C01/R3); zero-window detection compares (rcvBufSize-rcvBufUsed)>>scale with 0. (N7) zero-window handling: the immediate window update after the application reads is sent exactly when the SCALED window last advertised ((rcvAcc-rcvNxt) >> rcvWndScale, the expression getSendParams returns) was zero; Read notifies the worker exactly when the scaled free space was zero before the bytes left the buffer and is non-zero afterwards; the worker calls nonZeroWindow on that notification bit. NOT decided: the inequality 'bytes in flight <= offered window' over histories of ACKs (needs the sizes of heap-allocated views across calls); the arithmetic of the primitives is C14."
 	an := NewAbsint(c.P)
 	n1 := c.Rule("N1", "K8 narrowing", "window field conversion is lossless", 1)
 	if fn := c.Fn(n1, "tcp.sendTCP"); fn != nil {
@@ -170,10 +170,53 @@ func propC04(c *Ctx) {
 			c.Bad(n6, FuncName(fn)+"/extra-row:"+g, c.P.Pos(fn.Pos()), "path outside the acceptability table")
 		}
 	}
+
+	n7 := c.Rule("N7", "K9 sibling agreement + K7 exact-guard site tables", "zero window detected on the advertised (scaled) value; reopening announced", 9)
+	if fn := c.Fn(n7, "(*tcp.receiver).getSendParams"); fn != nil {
+		c.CheckSitesPresent(n7, fn, []SiteSpec{{Kind: "return", Args: []string{"$0.rcvNxt", "(seqnum.Value.Size($0.rcvNxt, $0.rcvAcc@u) >> $0.rcvWndScale)"}, Guards: []string{}, Exact: true, N: 1, Why: "what is advertised is (rcvAcc - rcvNxt) >> rcvWndScale"}})
+	}
+	if fn := c.Fn(n7, "(*tcp.receiver).nonZeroWindow"); fn != nil {
+		zero := "((($0.rcvAcc - $0.rcvNxt) >> $0.rcvWndScale) == 0)"
+		c.CheckSites(n7, fn, []SiteSpec{
+			{Kind: "call", Target: "(*tcp.sender).sendAck", Args: []string{"$0.ep.snd"}, Guards: []string{zero}, Exact: true, N: 1, Why: "a window update is sent at once exactly when the window the peer was last told - the SCALED value, the same expression getSendParams advertises - was zero"},
+		})
+	}
+	if fn := c.Fn(n7, "(*tcp.endpoint).zeroReceiveWindow"); fn != nil {
+		c.CheckSites(n7, fn, []SiteSpec{
+			{Kind: "return", Args: []string{"true"}, Guards: []string{"!($0.rcvBufUsed < $0.rcvBufSize)"}, Exact: true, N: 1, Why: "buffer full: zero"},
+			{Kind: "return", Args: []string{"((($0.rcvBufSize - $0.rcvBufUsed) >> $1) == 0)"}, Guards: []string{"($0.rcvBufUsed < $0.rcvBufSize)"}, Exact: true, N: 1, Why: "otherwise zero iff the free space scales down to 0 (same scale as the advertisement)"},
+		})
+	}
+	zrw := "(*tcp.endpoint).zeroReceiveWindow($0, $0.rcv.rcvWndScale)"
+	if fn := c.Fn(n7, "(*tcp.endpoint).readLocked"); fn != nil {
+		c.CheckSitesPresent(n7, fn, []SiteSpec{
+			{Kind: "call", Target: "(*tcp.endpoint).zeroReceiveWindow", Args: []string{"$0", "$0.rcv.rcvWndScale"}, N: 2, Why: "evaluated before and after the bytes leave the buffer, with the receiver's own scale"},
+			{Kind: "call", Target: "(*tcp.endpoint).notifyProtocolGoroutine", Args: []string{"$0", "1"}, Guards: []string{"!($0.rcvBufUsed == 0)", "!" + zrw, zrw}, Exact: true, N: 1, Why: "the worker is told exactly when the window was zero before the read and is non-zero after it"},
+		})
+		c.Ordered(n7, fn, []string{"zero before?", "consume", "zero after?"}, []func(Site) bool{func(s Site) bool {
+			if !isCall("(*tcp.endpoint).zeroReceiveWindow")(s) {
+				return false
+			}
+			for _, g := range s.Guards {
+				if g == zrw {
+					return false // the re-evaluation after the read
+				}
+			}
+			return true
+		}, isStore("tcp.endpoint.rcvBufUsed"), isCall("(*tcp.endpoint).notifyProtocolGoroutine")})
+	}
+	c.CheckCallers(n7, []string{"(*tcp.receiver).nonZeroWindow"}, []CallerSpec{{Fn: "(*tcp.endpoint).protocolMainLoop$4", Target: "(*tcp.receiver).nonZeroWindow", Args: []string{"^$0.rcv"}, Why: "the worker reacts to the non-zero-window notification"}})
+	if fn := c.P.Func("(*tcp.endpoint).protocolMainLoop$4"); fn != nil {
+		c.CheckSitesPresent(n7, fn, []SiteSpec{{Kind: "call", Target: "(*tcp.receiver).nonZeroWindow", Args: []string{"^$0.rcv"}, Guards: []string{"!(((*tcp.endpoint).fetchNotifications(^$0) & 1) == 0)"}, Exact: true, N: 1, Why: "on the notifyNonZeroReceiveWindow bit"}})
+	}
+	if k := pkgConst(c.P, "protocol/transport/tcp", "notifyNonZeroReceiveWindow"); k != nil {
+		c.Check(k.ExactString() == "1", n7, "const:tcp.notifyNonZeroReceiveWindow", "", "bit 1, the bit tested in the main loop", "notifyNonZeroReceiveWindow = "+k.ExactString()+" but the main loop tests bit 1")
+	}
+
 }
 
 func propC05(c *Ctx) {
-	c.Explanation = "The timing clauses (200 ms, doubling in time, one segment per timeout while the peer is silent, bounds on segments in flight as a function of the ACK history) are about wall-clock behaviour / numeric histories and are NOT decided. Decided (for all inputs): (L1) the constants InitialCwnd = 10, nDupAckThreshold = 3, minRTO = 200ms; (L2) the RTO store discipline: updateRTO's computed value is followed by the clamp to minRTO, a timer expiry stores exactly 2*rto (below the 60 s cap), and the retransmission timer is armed with rto; (L3) the data send loop runs only while outstanding < sndCwnd and counts every data segment sent; (L4) on a retransmission timeout fast recovery is left BEFORE the congestion controller collapses the window, every controller's HandleRTOExpired stores cwnd = 1, outstanding is reset and sending restarts from the head of the write list, in that order; (L5) duplicate-ACK counting: the complete reviewed site table of checkDuplicateAck (a duplicate is an ACK of sndUna with nothing new, same window, no data, while data is outstanding; the third one enters fast recovery after halving ssthresh; partial/complete ACKs during recovery), a true result leads to resendSegment, which retransmits the head of the write list."
+	c.Explanation = "The timing clauses (200 ms, doubling in time, one segment per timeout while the peer is silent, bounds on segments in flight as a function of the ACK history) are about wall-clock behaviour / numeric histories and are NOT decided. Decided (for all inputs): (L1) the constants InitialCwnd = 10, nDupAckThreshold = 3, minRTO = 200ms; (L2) the RTO store discipline: updateRTO's computed value is followed by the clamp to minRTO, a timer expiry stores exactly 2*rto (below the 60 s cap), and the retransmission timer is armed with rto; (L3) the data send loop runs only while outstanding < sndCwnd and counts every data segment sent; (L4) on a retransmission timeout fast recovery is left BEFORE the congestion controller collapses the window, every controller's HandleRTOExpired stores cwnd = 1, outstanding is reset and sending restarts from the head of the write list, in that order; (L5) duplicate-ACK counting: the complete reviewed site table of checkDuplicateAck (a duplicate is an ACK of sndUna with nothing new, same window, no data, while data is outstanding; the third one enters fast recovery after halving ssthresh; partial/complete ACKs during recovery), a true result leads to resendSegment, which retransmits the head of the write list; (L6) the lazily disabled retransmission timer is a three-state machine (disabled/enabled/orphaned) whose state word is written only by its own four methods with exactly the reviewed transitions: a wake-up while orphaned is consumed into disabled, enable always re-arms the runtime timer when the state is disabled (or the pending wake-up would come too late) and ends enabled, disable orphans an armed timer, expiry is reported only at or after the target, and the runtime timer's callback asserts the waker given to init."
 	l1 := c.Rule("L1", "K12 constants", "RFC 5681 / 6298 constants", 3)
 	for _, k := range []struct{ name, want, what string }{{"InitialCwnd", "10", "initial window of 10 segments"}, {"nDupAckThreshold", "3", "three duplicate ACKs"}, {"minRTO", "200000000", "200 ms RTO floor"}} {
 		v := pkgConst(c.P, "protocol/transport/tcp", k.name)
@@ -285,6 +328,62 @@ func propC05(c *Ctx) {
 			{Kind: "store", Target: "tcp.sender.sndCwnd", Args: []string{"$0", "$0.sndSsthresh"}, Guards: []string{}, Exact: true, N: 1, Why: "deflate: cwnd = ssthresh"},
 		})
 	}
+
+	l6 := c.Rule("L6", "typestate: K3 confinement + K7 exact-guard site tables", "lazy retransmission timer state machine", 14)
+	tm := "(*tcp.timer)."
+	c.OnlyIn(l6, "store to timer.state", c.FieldStores("tcp.timer", "state"), tm+"init", tm+"checkExpiration", tm+"disable", tm+"enable")
+	if fn := c.Fn(l6, tm+"checkExpiration"); fn != nil {
+		orph := "($0.state == 2)"
+		early := "time.Time.Before(time.Now(), $0.target)"
+		c.CheckSites(l6, fn, []SiteSpec{
+			{Kind: "store", Target: "tcp.timer.state", Args: []string{"$0", "0"}, Guards: []string{orph}, Exact: true, N: 1, Why: "a wake-up of an orphaned (lazily disabled) timer is consumed: orphaned -> disabled, so that the next enable re-arms the runtime timer"},
+			{Kind: "return", Args: []string{"false"}, Guards: []string{orph}, Exact: true, N: 1, Why: "... and it is not an expiry"},
+			{Kind: "store", Target: "tcp.timer.runtimeTarget", Args: []string{"$0", "$0.target"}, Guards: []string{"!" + orph, early}, Exact: true, N: 1, Why: "woken before the (postponed) target: remember the new runtime target"},
+			{Kind: "call", Target: "(*time.Timer).Reset", Args: []string{"$0.timer", "time.Time.Sub($0.target, time.Now())"}, Guards: []string{"!" + orph, early}, Exact: true, N: 1, Why: "... and re-arm for the remaining time"},
+			{Kind: "return", Args: []string{"false"}, Guards: []string{"!" + orph, early}, Exact: true, N: 1, Why: "... not expired yet"},
+			{Kind: "store", Target: "tcp.timer.state", Args: []string{"$0", "0"}, Guards: []string{"!" + orph, "!" + early}, Exact: true, N: 1, Why: "target reached: disabled"},
+			{Kind: "return", Args: []string{"true"}, Guards: []string{"!" + orph, "!" + early}, Exact: true, N: 1, Why: "... expired"},
+		})
+	}
+	if fn := c.Fn(l6, tm+"disable"); fn != nil {
+		c.CheckSites(l6, fn, []SiteSpec{{Kind: "store", Target: "tcp.timer.state", Args: []string{"$0", "2"}, Guards: []string{"!($0.state == 0)"}, Exact: true, N: 1, Why: "lazy disable: an armed timer becomes orphaned (the runtime timer stays armed), a disabled one stays disabled"}})
+	}
+	if fn := c.Fn(l6, tm+"enabled"); fn != nil {
+		c.CheckSites(l6, fn, []SiteSpec{{Kind: "return", Args: []string{"($0.state == 1)"}, Guards: []string{}, Exact: true, N: 1, Why: "enabled iff state == enabled"}})
+	}
+	if fn := c.Fn(l6, tm+"enable"); fn != nil {
+		c.CheckSites(l6, fn, []SiteSpec{
+			{Kind: "store", Target: "tcp.timer.target", Args: []string{"$0", "time.Time.Add(time.Now(), $1)"}, Guards: []string{}, Exact: true, N: 1, Why: "target = now + d"},
+			{Kind: "store", Target: "tcp.timer.runtimeTarget", Args: []string{"$0", "$0.target@1"}, N: 1, Why: "when re-arming, the runtime target is the new target"},
+			{Kind: "call", Target: "(*time.Timer).Reset", Args: []string{"$0.timer", "$1"}, N: 1, Why: "re-arm with d"},
+			{Kind: "store", Target: "tcp.timer.state", Args: []string{"$0", "1"}, Guards: []string{}, Exact: true, N: 1, Why: "enabled afterwards on every path"},
+		})
+		for _, ci := range c.Calls(fn, Is("(*time.Timer).Reset"), false) {
+			ok := GuardedBy(fn, ci.Block(), AnyOf(AtomIs(true, Exactly("($0.state == 0)")), AtomIs(true, Exactly("time.Time.Before($0.target@1, $0.runtimeTarget)"))))
+			c.Check(ok, l6, FuncName(fn)+"/rearm-iff-disabled-or-earlier", c.pos(ci), "the runtime timer is re-armed exactly when none is pending (disabled) or the pending one fires too late", "the runtime timer is re-armed under a different condition")
+			// and not re-armed otherwise is the lazy optimisation; what matters is that a disabled timer IS re-armed:
+			var stDis *Edge
+			for _, e := range CondEdges(fn) {
+				if e.Atom == "($0.state == 0)" && e.Holds {
+					ee := e
+					stDis = &ee
+				}
+			}
+			c.Check(stDis != nil && stDis.From.Succs[stDis.Succ] == ci.Block(), l6, FuncName(fn)+"/disabled-always-rearms", c.pos(ci), "state == disabled leads straight to the re-arm", "a disabled timer can be enabled without arming the runtime timer: it never fires")
+		}
+	}
+	if fn := c.Fn(l6, tm+"init"); fn != nil {
+		c.CheckSitesPresent(l6, fn, []SiteSpec{
+			{Kind: "store", Target: "tcp.timer.state", Args: []string{"$0", "0"}, Guards: []string{}, Exact: true, N: 1, Why: "starts disabled"},
+			{Kind: "call", Target: "(*time.Timer).Stop", Args: []string{"$0.timer@1"}, Guards: []string{}, Exact: true, N: 1, Why: "... with the runtime timer stopped"},
+		})
+	}
+	if fn := c.P.Func("(*tcp.timer).init$1"); fn != nil {
+		c.CheckSites(l6, fn, []SiteSpec{{Kind: "call", Target: "(*sleep.Waker).Assert", Args: []string{"^$1"}, Guards: []string{}, Exact: true, N: 1, Why: "the runtime timer's only effect is to assert the waker handed to init"}})
+	} else {
+		c.Broken(l6, "anchor-unresolved:(*tcp.timer).init$1", "timer callback closure not found")
+	}
+
 }
 
 func sortedCopy(ss []string) []string {
